@@ -509,6 +509,139 @@ Proof. exact guards_satisfiable. Qed.
 
 (* ---- tie by translation: the Gallina definitions regenerated from dateutils.go by gotrans on
    every run are the model's unit predicates ---- *)
+(* ==== field names that collide with names the ingest path treats specially (seed C16h) ====
+   The flattener behind GetNewPLE (ParseRawJsonObject, shared by ES bulk / single-document, Splunk HEC, Loki push,
+   OTLP logs and OTLP traces), modelled on TREES (ProtoTree.v): objects, arrays, scalars; a column is named by the
+   PATH of its leaf.  Full statement (what the property demands):
+     forall doc ks s, Leaf (JO doc) ks s -> In (path_of [] ks, s) (flatten k_timestamp doc)
+   FALSE by design for the root member called like the timestamp key (it is the event time, C16_timestamp_key_never_a_column)
+   and for nothing else but the empty-root-name corner (C16_empty_root_key_corner); the guard below is exact. *)
+From SigM Require Import ProtoTree.
+From SigP Require Import ProtoTreeProofs.
+
+Theorem C16_every_leaf_stored_under_its_path : forall ts cur v ks s,
+  Leaf v ks s -> path_of cur ks <> ts -> In (path_of cur ks, s) (flat ts cur v).
+Proof. exact leaf_stored. Qed.
+Print Assumptions C16_every_leaf_stored_under_its_path.
+
+(* no premise on the leaf's own name, on the names above it, on the value kind, on the depth, on arrays in between *)
+Theorem C16_nested_leaf_stored_whatever_its_name : forall doc k1 k2 ks s,
+  k1 <> [] -> Leaf (JO doc) (k1 :: k2 :: ks) s ->
+  In (path_of [] (k1 :: k2 :: ks), s) (flatten k_timestamp doc).
+Proof. exact nested_leaf_stored_default. Qed.
+Print Assumptions C16_nested_leaf_stored_whatever_its_name.
+
+(* the same for any configured timestamp key without a '.' *)
+Theorem C16_nested_leaf_stored_any_timestamp_key : forall ts doc k1 k2 ks s,
+  ~ In 46 ts -> k1 <> [] -> Leaf (JO doc) (k1 :: k2 :: ks) s ->
+  In (path_of [] (k1 :: k2 :: ks), s) (flatten ts doc).
+Proof. exact nested_leaf_stored. Qed.
+Print Assumptions C16_nested_leaf_stored_any_timestamp_key.
+
+Theorem C16_root_leaf_stored : forall ts doc k s,
+  Leaf (JO doc) [k] s -> k <> ts -> In (k, s) (flatten ts doc).
+Proof. exact root_leaf_stored. Qed.
+Print Assumptions C16_root_leaf_stored.
+
+Theorem C16_nothing_but_leaves_stored : forall ts cur v p s,
+  In (p, s) (flat ts cur v) -> exists ks, Leaf v ks s /\ p = path_of cur ks /\ p <> ts.
+Proof. exact stored_is_leaf. Qed.
+Print Assumptions C16_nothing_but_leaves_stored.
+
+Theorem C16_timestamp_key_never_a_column : forall ts doc s, ~ In (ts, s) (flatten ts doc).
+Proof. exact ts_key_never_a_column. Qed.
+Print Assumptions C16_timestamp_key_never_a_column.
+
+(* the code's flattener (skip test inside the four parseSingle* functions, on the whole path) = all leaves, minus the
+   columns whose PATH is the timestamp key; hence the flattened events of the other theorems are its output *)
+Theorem C16_flattener_is_path_filter : forall ts cur v,
+  flat ts cur v = filter (fun f => negb (bytes_eqb (fst f) ts)) (dotted cur v).
+Proof. exact flat_filter. Qed.
+Print Assumptions C16_flattener_is_path_filter.
+
+Theorem C16_flattened_model_is_flattener : forall doc, flatten k_timestamp doc = stored_fields (dot doc).
+Proof. exact flatten_stored_fields. Qed.
+Print Assumptions C16_flattened_model_is_flattener.
+
+Theorem C16_flattener_on_flat_event : forall e, flatten k_timestamp (leaves e) = stored_fields e.
+Proof. exact flatten_flat_doc. Qed.
+Print Assumptions C16_flattener_on_flat_event.
+
+(* the event time is read from the scalar members of the root: nothing below the root has any influence on it *)
+Theorem C16_event_time_ignores_nested_fields : forall x e tree index dec now0 tsNow clock,
+  containers_only tree = true ->
+  final_ts x (jroot (leaves e ++ tree)) index dec now0 tsNow clock = final_ts x e index dec now0 tsNow clock.
+Proof. exact tree_time_root_only. Qed.
+Print Assumptions C16_event_time_ignores_nested_fields.
+
+(* comparing the timestamp key with the member's OWN name (at the top of the per-member handler) is another function:
+   {"event":{"timestamp":1}} loses event.timestamp *)
+Theorem C16_leaf_name_comparison_refuted :
+  exists doc ks s, Leaf (JO doc) ks s /\ path_of [] ks <> k_timestamp /\
+    In (path_of [] ks, s) (flatten k_timestamp doc) /\
+    ~ In (path_of [] ks, s) (flat_leafname k_timestamp [] (JO doc)).
+Proof. exact leafname_refuted. Qed.
+Print Assumptions C16_leaf_name_comparison_refuted.
+
+(* ... and the same function on events without nesting, which is why flat events never tell them apart *)
+Theorem C16_leaf_name_comparison_same_on_flat_events : forall ts e,
+  flat_leafname ts [] (JO (leaves e)) = flatten ts (leaves e).
+Proof. exact leafname_same_on_flat_events. Qed.
+Print Assumptions C16_leaf_name_comparison_same_on_flat_events.
+
+Theorem C16_flattener_values :
+  flatten k_timestamp leafname_doc = [(s2b "event.timestamp", SInt 1)] /\
+  flat_leafname k_timestamp [] (JO leafname_doc) = [] /\
+  flatten k_timestamp [(s2b "items", JA [JO [(s2b "timestamp", JL (SStr (s2b "t"))); (s2b "sku", JL (SInt 7))]])]
+    = [(s2b "items.0.timestamp", SStr (s2b "t")); (s2b "items.0.sku", SInt 7)] /\
+  flatten k_timestamp [(k_timestamp, JL (SInt 1600000000)); (s2b "a", JO [(k_timestamp, JL (SInt 5))])]
+    = [(s2b "a.timestamp", SInt 5)] /\
+  flatten k_timestamp [(k_timestamp, JO [(s2b "a", JL (SInt 1))])] = [(s2b "timestamp.a", SInt 1)].
+Proof. exact leafname_values. Qed.
+Print Assumptions C16_flattener_values.
+
+Example C16_empty_root_key_corner :
+  flatten k_timestamp [([], JO [(k_timestamp, JL (SInt 5)); (s2b "y", JL (SInt 2))])] = [(s2b "y", SInt 2)] /\
+  path_of [] [[]; k_timestamp] = k_timestamp.
+Proof. exact empty_root_key_corner. Qed.
+
+(* OTLP logs with a structured (kvlist) body: every leaf of the body is the column body.<path> *)
+Theorem C16_otlp_kvlist_body_leaf_stored : forall res sc r body ks s,
+  Leaf (JO body) ks s -> In (path_of k_body ks, s) (otlp_log_build_kvbody res sc r body).
+Proof. exact kvbody_leaf_stored. Qed.
+Print Assumptions C16_otlp_kvlist_body_leaf_stored.
+
+(* ---- names that collide with the record's OWN root fields: known findings (streams R of the harness).
+   Full statements (FALSE for the code): C16_identifiers_preserved_span_guarded / C16_span_time_always_arrival /
+   C16_event_time_preserved_loki_guarded WITHOUT their "no attribute / metadata of that name" guards. ---- *)
+Theorem C16_span_attribute_replaces_record_field_refuted :
+  exists attrs, lookup (s2b "name") (span_build (collide_span attrs)) <> Some (SStr (sp_name (collide_span attrs))) /\
+                lookup (s2b "name") (span_build (collide_span attrs)) = Some (SStr (s2b "alice")).
+Proof. exact span_attribute_replaces_field. Qed.
+Print Assumptions C16_span_attribute_replaces_record_field_refuted.
+
+Theorem C16_span_attribute_named_timestamp_becomes_time_refuted :
+  exists attrs, forall tsNow,
+    final_ts no_ext (span_build (collide_span attrs)) (s2b "traces") None tsNow tsNow tsNow = 1400000001000 /\
+    lookup k_timestamp (stored_fields (span_build (collide_span attrs))) = None.
+Proof. exact span_attribute_timestamp_becomes_time. Qed.
+Print Assumptions C16_span_attribute_named_timestamp_becomes_time_refuted.
+
+Theorem C16_loki_label_named_line_refuted :
+  exists labels e, loki_build labels [collide_line []] = [e] /\
+    lookup k_line labels = Some (SStr (s2b "L7")) /\ lookup k_line e = Some (SStr (s2b "text")) /\
+    forall k, lookup k e = Some (SStr (s2b "L7")) -> False.
+Proof. exact loki_label_named_line_lost. Qed.
+Print Assumptions C16_loki_label_named_line_refuted.
+
+Theorem C16_loki_metadata_replaces_record_field_refuted :
+  (exists e, loki_build [] [collide_line [(k_timestamp, SStr (s2b "1400000000"))]] = [e] /\
+             forall tsNow, final_ts no_ext e (s2b "loki-index") None tsNow tsNow tsNow = 1400000000000) /\
+  (exists e, loki_build [] [collide_line [(k_line, SStr (s2b "other"))]] = [e] /\
+             lookup k_line e = Some (SStr (s2b "other"))).
+Proof. exact loki_metadata_replaces_record_field. Qed.
+Print Assumptions C16_loki_metadata_replaces_record_field_refuted.
+
 From SigG Require Import Gen.
 From SigP Require Import GenC16.
 Theorem C16_code_IsTimeInMilli_is_model : forall t : N,
